@@ -215,19 +215,19 @@ Inductive enc_res := EncOk (payload : bytes) | EncFail (partial : bytes).
 (* Vec::resize(4, 0u8): truncate to 4 or pad with zeros *)
 Definition resize4 (b : bytes) : bytes := firstn 4 b ++ repeat 0 (4 - length b)%nat.
 
-(* writer.rs:61 / async_writer.rs:88  `(self.buffer.len() as u32 - 4)`; ovf = overflow checks on
-   (debug build: a u32 subtraction that underflows panics; release: it wraps). None = panic. *)
-Definition prefix_of (ovf : bool) (blen : N) : option N :=
-  let l32 := blen mod 4294967296 in
-  if l32 <? 4 then (if ovf then None else Some ((l32 + 4294967296 - 4) mod 4294967296))
-  else Some (l32 - 4).
+(* writer.rs:61 / async_writer.rs:87  `((self.buffer.len() - 4) as u32)`: the subtraction is on the usize length
+   (None = underflow panic; unreachable, the buffer holds at least the 4 placeholder bytes), then the `as u32`
+   truncation.  (Before the repair "fix: frame length prefix cannot underflow" this read `len as u32 - 4`, which
+   panicked in overflow-checked builds for payloads of 2^32-4 .. 2^32-1 bytes: finding F13.) *)
+Definition prefix_of (blen : N) : option N :=
+  if blen <? 4 then None else Some ((blen - 4) mod 4294967296).
 
 Inductive build_res := BOk (buf : bytes) | BErr (e : io_err) (buf : bytes) | BPanic (buf : bytes).
 
 (* writer.rs:56-62 and, textually identical, async_writer.rs:82-88:
    resize(4,0); encode_with(val, &mut self.buffer)?; if len - 4 > max_len { InvalidLen };
-   prefix = (len as u32 - 4).to_be_bytes(); buffer[..4].copy_from_slice(&prefix) *)
-Definition build_frame (ovf : bool) (buf0 : bytes) (max : N) (e : enc_res) : build_res :=
+   prefix = ((len - 4) as u32).to_be_bytes(); buffer[..4].copy_from_slice(&prefix) *)
+Definition build_frame (buf0 : bytes) (max : N) (e : enc_res) : build_res :=
   let b0 := resize4 buf0 in
   match e with
   | EncFail part => BErr IoEncode (b0 ++ part)
@@ -235,7 +235,7 @@ Definition build_frame (ovf : bool) (buf0 : bytes) (max : N) (e : enc_res) : bui
       let b := b0 ++ p in
       if len b <? 4 then BPanic b                          (* usize `len - 4` underflow *)
       else if max <? len b - 4 then BErr IoInvalidLen b
-      else match prefix_of ovf (len b) with
+      else match prefix_of (len b) with
            | None => BPanic b
            | Some n => BOk (be 4 n ++ skipn 4 b)
            end
@@ -247,8 +247,8 @@ Inductive wres := WOk (n : N) | WErr (e : io_err) | WPanic | WFuel.
 
 (* writer.rs:55-65 Writer::write_with.  sink_ok = whether the inner writer's write_all succeeds;
    the third component is what that single write_all call hands to the inner writer. *)
-Definition write_with (ovf : bool) (w : writer) (e : enc_res) (sink_ok : bool) : wres * writer * list bytes :=
-  match build_frame ovf (w_buf w) (w_max w) e with
+Definition write_with (w : writer) (e : enc_res) (sink_ok : bool) : wres * writer * list bytes :=
+  match build_frame (w_buf w) (w_max w) e with
   | BErr er b => (WErr er, mkwriter b (w_max w), [])
   | BPanic b => (WPanic, mkwriter b (w_max w), [])
   | BOk b =>
@@ -256,12 +256,12 @@ Definition write_with (ovf : bool) (w : writer) (e : enc_res) (sink_ok : bool) :
       else (WErr IoInner, mkwriter b (w_max w), [])
   end.
 
-Fixpoint write_seq (ovf : bool) (w : writer) (es : list (enc_res * bool)) : list wres * writer * list bytes :=
+Fixpoint write_seq (w : writer) (es : list (enc_res * bool)) : list wres * writer * list bytes :=
   match es with
   | [] => ([], w, [])
   | (e, ok) :: t =>
-      let '(r, w1, c1) := write_with ovf w e ok in
-      let '(rs, w2, c2) := write_seq ovf w1 t in
+      let '(r, w1, c1) := write_with w e ok in
+      let '(rs, w2, c2) := write_seq w1 t in
       (r :: rs, w2, c1 ++ c2)
   end.
 
@@ -275,5 +275,5 @@ Definition fio_read_run (max : N) (ok : list bytes) (data : bytes) (sched : list
   : list (outcome bytes) * reader * src :=
   read_stream bytes (dec_tab ok) (mkreader [] max 0) (mksrc data sched 0).
 
-Definition fio_write_run (ovf : bool) (max : N) (es : list (enc_res * bool)) : list wres * writer * list bytes :=
-  write_seq ovf (mkwriter [] max) es.
+Definition fio_write_run (max : N) (es : list (enc_res * bool)) : list wres * writer * list bytes :=
+  write_seq (mkwriter [] max) es.
